@@ -1,0 +1,11 @@
+//go:build verif
+
+// Machine-checked contracts for package l4ssh (comment-only; read by /verif/gvc).
+
+package l4ssh
+
+//@ func (m *MatchSSH) Match(cx *layer4.Connection) (matched bool, err error)
+//@ requires wfm(cx)
+//@ safety C04
+//@ ensures[C14] err == nil ==> matched == (old(bytes(cx.buf[cx.offset:cx.offset+4])) == "SSH-")
+//@ ensures[C06] err != nil ==> !matched
